@@ -1,6 +1,7 @@
 package main
 
 import (
+	"os"
 	"fmt"
 	"go/token"
 	"go/types"
@@ -46,7 +47,23 @@ func rulesC05(p *Prog, r *Report) {
 				if c, ok := in.(*ssa.Call); ok && c.Call.StaticCallee() == parseOp && len(c.Call.Args) == 2 {
 					if s, ok := constString(c.Call.Args[1]); ok {
 						asked[s] = c.Pos()
+					} else if ss, ok := constStringSet(c.Call.Args[1], 0); ok {
+						// an operator taken from a local constant table (e.g. a list of misplaced operators)
+						for _, s := range ss {
+							asked[s] = c.Pos()
+						}
 					} else {
+						if os.Getenv("SPDXVERIF_TRACE") != "" {
+							fmt.Printf("G1 arg: %T %v\n", c.Call.Args[1], c.Call.Args[1])
+							for _, op := range c.Call.Args[1].(ssa.Instruction).Operands(nil) {
+								fmt.Printf("   operand %T %v\n", *op, *op)
+								if in, ok := (*op).(ssa.Instruction); ok {
+									for _, o2 := range in.Operands(nil) {
+										fmt.Printf("      operand %T %v\n", *o2, *o2)
+									}
+								}
+							}
+						}
 						r.Unknown("G1", "parseOperator argument", p.pos(c.Pos()), "kind=undecided: operator requested by the parser is not a constant")
 					}
 				}
@@ -396,6 +413,204 @@ func ruleG8(p *Prog, r *Report) {
 			r.OK("G8", id, "-", "a '+' is left over and rejected by the parser", res.Via, false)
 		}
 	}
+}
+
+// constStringSet: the finite set of constant strings v can be — a constant, a phi of such, an element of
+// a local array/slice literal of strings, or a string field of an element of a local array literal of
+// structs (table-driven code). Every element of the literal is taken as possible.
+func constStringSet(v ssa.Value, d int) ([]string, bool) {
+	if d > 4 {
+		return nil, false
+	}
+	if s, ok := constString(v); ok {
+		return []string{s}, true
+	}
+	literalOf := func(x ssa.Value) *ssa.Alloc {
+		switch t := x.(type) {
+		case *ssa.UnOp: // whole array loaded as a value
+			if t.Op == token.MUL {
+				if al, ok := t.X.(*ssa.Alloc); ok {
+					return al
+				}
+			}
+		case *ssa.Alloc:
+			return t
+		case *ssa.Slice:
+			if al, ok := t.X.(*ssa.Alloc); ok {
+				return al
+			}
+		}
+		return nil
+	}
+	// collect the constants stored into element slots (optionally into one field of each element)
+	collect := func(al *ssa.Alloc, field int) ([]string, bool) {
+		var out []string
+		for _, r := range *al.Referrers() {
+			ia, ok := r.(*ssa.IndexAddr)
+			if !ok {
+				continue
+			}
+			for _, rr := range *ia.Referrers() {
+				switch t := rr.(type) {
+				case *ssa.Store:
+					if field < 0 && t.Addr == ssa.Value(ia) {
+						s, ok := constString(t.Val)
+						if !ok {
+							return nil, false
+						}
+						out = append(out, s)
+					}
+				case *ssa.FieldAddr:
+					if field >= 0 && t.Field == field {
+						for _, r3 := range *t.Referrers() {
+							if st, ok := r3.(*ssa.Store); ok && st.Addr == ssa.Value(t) {
+								s, ok := constString(st.Val)
+								if !ok {
+									return nil, false
+								}
+								out = append(out, s)
+							}
+						}
+					}
+				}
+			}
+		}
+		return out, len(out) > 0
+	}
+	switch t := v.(type) {
+	case *ssa.Phi:
+		var out []string
+		for _, e := range t.Edges {
+			ss, ok := constStringSet(e, d+1)
+			if !ok {
+				return nil, false
+			}
+			out = append(out, ss...)
+		}
+		return out, len(out) > 0
+	case *ssa.Index: // arr[i] on an array value
+		if al := literalOf(t.X); al != nil {
+			return collect(al, -1)
+		}
+	case *ssa.Field: // arr[i].f on an array-of-structs value
+		if ss, ok := structFieldConsts(t.X, t.Field, d+1); ok {
+			return ss, true
+		}
+		if ix, ok := t.X.(*ssa.Index); ok {
+			if al := literalOf(ix.X); al != nil {
+				return collect(al, t.Field)
+			}
+		}
+	case *ssa.UnOp:
+		if t.Op != token.MUL {
+			break
+		}
+		switch a := t.X.(type) {
+		case *ssa.IndexAddr: // slice or *array element
+			if al := literalOf(a.X); al != nil {
+				return collect(al, -1)
+			}
+		case *ssa.FieldAddr:
+			if ia, ok := a.X.(*ssa.IndexAddr); ok {
+				if al := literalOf(ia.X); al != nil {
+					return collect(al, a.Field)
+				}
+			}
+			// a field of a local struct variable that holds a copy of a table element (for _, e := range table)
+			if lv, ok := a.X.(*ssa.Alloc); ok {
+				var out []string
+				n := 0
+				for _, r := range *lv.Referrers() {
+					st, ok := r.(*ssa.Store)
+					if !ok || st.Addr != ssa.Value(lv) {
+						continue
+					}
+					n++
+					ss, ok := structFieldConsts(st.Val, a.Field, d+1)
+					if !ok {
+						return nil, false
+					}
+					out = append(out, ss...)
+				}
+				return out, n > 0 && len(out) > 0
+			}
+		}
+	}
+	return nil, false
+}
+
+// structFieldConsts: the constants field #f of struct value v can hold — v is a struct literal (loaded
+// from its local), or an element of a local array literal of such structs.
+func structFieldConsts(v ssa.Value, f int, d int) ([]string, bool) {
+	if d > 6 {
+		return nil, false
+	}
+	switch t := v.(type) {
+	case *ssa.UnOp:
+		if t.Op != token.MUL {
+			return nil, false
+		}
+		al, ok := t.X.(*ssa.Alloc)
+		if !ok {
+			return nil, false
+		}
+		var out []string
+		for _, r := range *al.Referrers() {
+			fa, ok := r.(*ssa.FieldAddr)
+			if !ok || fa.Field != f {
+				continue
+			}
+			for _, rr := range *fa.Referrers() {
+				if st, ok := rr.(*ssa.Store); ok && st.Addr == ssa.Value(fa) {
+					s, ok := constString(st.Val)
+					if !ok {
+						return nil, false
+					}
+					out = append(out, s)
+				}
+			}
+		}
+		return out, len(out) > 0
+	case *ssa.Index:
+		ld, ok := t.X.(*ssa.UnOp)
+		if !ok || ld.Op != token.MUL {
+			return nil, false
+		}
+		arr, ok := ld.X.(*ssa.Alloc)
+		if !ok {
+			return nil, false
+		}
+		var out []string
+		for _, r := range *arr.Referrers() {
+			ia, ok := r.(*ssa.IndexAddr)
+			if !ok {
+				continue
+			}
+			for _, rr := range *ia.Referrers() {
+				if st, ok := rr.(*ssa.Store); ok && st.Addr == ssa.Value(ia) {
+					ss, ok := structFieldConsts(st.Val, f, d+1)
+					if !ok {
+						return nil, false
+					}
+					out = append(out, ss...)
+				}
+				// element initialised in place: &arr[i].f = const
+				if fa, ok := rr.(*ssa.FieldAddr); ok && fa.Field == f {
+					for _, r3 := range *fa.Referrers() {
+						if st, ok := r3.(*ssa.Store); ok && st.Addr == ssa.Value(fa) {
+							s, ok := constString(st.Val)
+							if !ok {
+								return nil, false
+							}
+							out = append(out, s)
+						}
+					}
+				}
+			}
+		}
+		return out, len(out) > 0
+	}
+	return nil, false
 }
 
 // tailOf returns the last operand of a string concatenation chain.
